@@ -21,11 +21,15 @@ try:
     for name, path, old, new, count in M:
         if only and not any(name.startswith(o) for o in only):
             continue
+        if os.path.exists(os.path.join(HERE, 'mutants', name + '.patch.equivalent')):
+            print('equiv', name); continue
         f = os.path.join(wt, path)
-        src = open(f).read()
+        src = open(f, newline='').read()
+        if '\r\n' in src and '\r' not in old:
+            old, new = old.replace('\n', '\r\n'), new.replace('\n', '\r\n')
         if src.count(old) != count:
             print('SKIP %s: pattern occurs %d times (want %d)' % (name, src.count(old), count)); continue
-        open(f, 'w').write(src.replace(old, new))
+        open(f, 'w', newline='').write(src.replace(old, new))
         diff = subprocess.check_output(['git', '-C', wt, 'diff'])
         open(os.path.join(HERE, 'mutants', name + '.patch'), 'wb').write(diff)
         subprocess.check_call(['git', '-C', wt, 'checkout', '-q', '--', '.'])
